@@ -392,7 +392,9 @@ def translate(fn, lean_name, how, binds, params=None, ret=None, unwrap=(), strip
     doc = f'/-- {src}\n    source: `{text[:300]}` -/\n'
     lean = (f'{doc}def {lean_name}{sig} : {ty} :=\n  {body}\n'
             f'/-- no-underflow / non-zero-divisor side conditions of `{lean_name}` (Python ints vs Lean Nat) -/\n'
-            f'def {lean_name}_sideOk{sig} : Prop :=\n    {side}\n')
+            f'def {lean_name}_sideOk{sig} : Prop :=\n    {side}\n'
+            f'instance{sig} : Decidable ({lean_name}_sideOk{"".join(" " + n for n, _ in plist)}) := by\n'
+            f'  unfold {lean_name}_sideOk; exact inferInstance\n')
     if to_bytes:
         lean += f'def {lean_name}_width : Nat := {to_bytes[0]}\ndef {lean_name}_bigEndian : Bool := {"true" if to_bytes[1] == "big" else "false"}\n'
     return dict(lean=lean, notes=tr.notes, to_bytes=to_bytes, params=plist, type=ty)
